@@ -1,3 +1,4 @@
+import Props.SchedTie
 import TaskModel.Sched.MonC13
 import TaskModel.Gen.Codes
 /-!
